@@ -49,8 +49,9 @@ pub const ENV_BRACES_VALUE: &str = "br{}ace";
 pub const ENV_TAIL_NAME: &str = "L4V_C07_TAIL";
 pub const ENV_TAIL_VALUE: &str = "d/app.log";
 
-const PATTERNS: [&str; 8] = [
+const PATTERNS: [&str; 9] = [
     "arch/{}.$ENV{L4V_C07_TAIL}",
+    "$ENV{L4V_C07_DIR}/gen-{}/app.log",
     "app.{}.log",
     "arch/{}/app.log",
     "arch/{}/app.{}.log",
